@@ -56,6 +56,21 @@ class DRBG:
         return out[:size]
 
 
+class SimClock(Clock):
+    """task.Clock that, like a real reactor, logs an exception raised by a delayed call and carries on"""
+    def advance(self, amount):
+        self.rightNow += amount
+        self._sortCalls()
+        while self.calls and self.calls[0].getTime() <= self.seconds():
+            call = self.calls.pop(0)
+            call.called = 1
+            try:
+                call.func(*call.args, **call.kw)
+            except Exception:
+                log.err(None, "exception in delayed call")
+            self._sortCalls()
+
+
 class Tape:
     """Finite tape of scheduler choices.  Exhausted tape yields 0 (= first,
     i.e. the boring FIFO choice), so shrinking moves toward the plain schedule."""
@@ -524,7 +539,7 @@ def wormhole_frame(f):
 
 class World:
     def __init__(self, key=b"k", welcome_motd=None, welcome_error=None, bufsize=1 << 16):
-        self.clock = Clock()
+        self.clock = SimClock()
         self.net = SimNetwork(self)
         self.net.bufsize = bufsize
         self.services = []
